@@ -19,8 +19,10 @@ PROP = "C13"
 
 TIERS = {
     # schedule runs, history runs, minimiser candidate bound
-    "quick": {"sched": 2500, "hist": 2500, "min_candidates": 150, "min_classes": 3, "min_seconds": 90},
-    "thorough": {"sched": 60000, "hist": 60000, "min_candidates": 400, "min_classes": 12, "min_seconds": 900},
+    "quick": {"sched": 2500, "hist": 2500, "min_candidates": 150, "min_classes": 3, "min_seconds": 90,
+              "instr_frac": 0.12},
+    "thorough": {"sched": 60000, "hist": 60000, "min_candidates": 400, "min_classes": 12, "min_seconds": 900,
+                 "instr_frac": 0.2},
 }
 
 
@@ -149,9 +151,15 @@ class Workload:
             rng.shuffle(scripts[k])
             scripts[k] = self._add_faults(rng, scripts[k], 0.12, 0.06, 0.15)
         est = sum(20000 + 3000 * len(op.get("text", "")) for s in scripts for op in s)
+        # a slice of the runs pre-empts at bytecode granularity (about 5x the events per line)
+        gran = "line"
+        if rng.random() < TIERS[tier]["instr_frac"] and sum(len(op.get("text", "")) for s in scripts for op in s) <= 160:
+            gran = "instruction"
+            est *= 6
         return {
             "engine": "schedule",
             "run": i,
+            "granularity": gran,
             "threads": scripts,
             "seed_parts": [SEED, PROP, "sched", i],
             "horizon": max(2000, est // 12),
@@ -240,14 +248,14 @@ def judge(res: dict, golden: dict[str, tuple]) -> list[dict]:
 def trace_of(task: dict, res: dict) -> dict:
     if task["engine"] == "schedule":
         return {"engine": "schedule", "threads": res["threads"], "schedule": res["segments"],
-                "cap": task.get("cap"), "granularity": "line"}
+                "cap": task.get("cap"), "granularity": res.get("granularity", task.get("granularity", "line"))}
     return {"engine": "history", "ops": res["ops"]}
 
 
 def run_trace(trace: dict, wall: float = 300.0):
     if trace["engine"] == "schedule":
         task = {"threads": copy.deepcopy(trace["threads"]), "schedule": trace.get("schedule") or [],
-                "cap": trace.get("cap") or 50_000_000, "wall": wall}
+                "cap": trace.get("cap") or 50_000_000, "wall": wall, "granularity": trace.get("granularity", "line")}
         return kernel.run_in_child(worlda.run_schedule_task, task, wall + 30)
     task = {"ops": copy.deepcopy(trace["ops"])}
     return kernel.run_in_child(worlda.run_history_task, task, wall + 30)
@@ -428,7 +436,7 @@ def check(tier: str) -> int:
     stats = {
         "sched_runs": 0, "hist_runs": 0, "steps": 0, "switches": 0, "overlap_switches": 0,
         "aborts": {}, "abort_results": {}, "cancels": 0, "recursion_faults": {}, "mutations": 0,
-        "policies": {}, "ops_judged": 0, "ops_total": 0, "harness_timeouts": 0,
+        "policies": {}, "granularity": {}, "ops_judged": 0, "ops_total": 0, "harness_timeouts": 0,
     }
     sched_sigs, sched_sigs_nontrivial, hist_sigs, hist_sigs_nontrivial = set(), set(), set(), set()
     fn_pairs = set()
@@ -452,6 +460,8 @@ def check(tier: str) -> int:
             stats["steps"] += res["steps"]
             stats["switches"] += res["switches"]
             stats["overlap_switches"] += res["overlap_switches"]
+            g = res.get("granularity", "line")
+            stats["granularity"][g] = stats["granularity"].get(g, 0) + 1
             pn = res["policy"]["policy"]
             stats["policies"][pn] = stats["policies"].get(pn, 0) + 1
             sched_sigs.add(res["digest"])
@@ -567,6 +577,7 @@ def check(tier: str) -> int:
         "switches_with_overlap": stats["overlap_switches"],
         "distinct_preempted_resumed_function_pairs": len(fn_pairs),
         "policy_histogram": stats["policies"],
+        "runs_by_preemption_granularity": stats["granularity"],
         "faults_fired": {
             "abort_by_kind_and_function_top": dict(sorted(stats["aborts"].items(), key=lambda kv: -kv[1])[:25]),
             "abort_distinct_sites": len(stats["aborts"]),
@@ -594,7 +605,7 @@ def check(tier: str) -> int:
     }
     kernel.write_evidence(
         PROP, tier, "exploration", coverage,
-        ["interleavings are sequentially consistent at source-line granularity under one runnable thread (GIL model)",
+        ["interleavings are sequentially consistent under one runnable thread (GIL model); pre-emption at source-line granularity, at bytecode granularity for a slice of the runs",
          "C code (re, lru_cache, io) is atomic in the simulation",
          "the reference outcome of an op is what one fresh interpreter returns for it (two hash seeds must agree)",
          "MemoryError/KeyboardInterrupt are injected as exceptions at a step, not as failed allocations in C"],
@@ -695,7 +706,7 @@ def replay(path: str) -> int:
         print("REPRODUCED" if not same else "NOT-REPRODUCED", key)
         return 1 if not same else 0
     worlda.init_world()
-    trace = {k: data[k] for k in ("engine", "threads", "schedule", "ops", "cap") if k in data}
+    trace = {k: data[k] for k in ("engine", "threads", "schedule", "ops", "cap", "granularity") if k in data}
     ops = ops_of_task(trace)
     golden, _ = golden_for(ops)
     v = reproduces(trace, golden, key)
